@@ -3,7 +3,9 @@ package main
 import (
 	"encoding/json"
 	"fmt"
+	"runtime"
 	"runtime/debug"
+	"strings"
 
 	"github.com/advancedclimatesystems/gonnx/ops"
 	"gorgonia.org/tensor"
@@ -41,11 +43,7 @@ func runBcast(c *bcastCase) (v *hx.Violation) {
 				v = mk("panic", fmt.Sprintf("%v :: %s", p, string(debug.Stack())[:400]))
 			}
 		}()
-		if c.Fn == "multi" {
-			oa, ob, err = ops.MultidirectionalBroadcast(ga, gb)
-		} else {
-			oa, ob, err = ops.UnidirectionalBroadcast(ga, gb)
-		}
+		oa, ob, err = callBcast(c.Fn, ga, gb)
 	}()
 	if v != nil {
 		return v
@@ -57,7 +55,7 @@ func runBcast(c *bcastCase) (v *hx.Violation) {
 		return mk("mutated-input", "source B modified: "+d)
 	}
 	bs, compat := ref.BroadcastShape(a.Shape, b.Shape)
-	if c.Fn == "uni" && compat && !ref.ShapeEq(bs, a.Shape) {
+	if strings.HasSuffix(c.Fn, "uni") && compat && !ref.ShapeEq(bs, a.Shape) {
 		compat = false
 	}
 	if !compat {
@@ -104,11 +102,7 @@ func runBcast(c *bcastCase) (v *hx.Violation) {
 						v = mk("panic", fmt.Sprintf("second request on refilled sources: %v :: %s", p, string(debug.Stack())[:400]))
 					}
 				}()
-				if c.Fn == "multi" {
-					oa, ob, err = ops.MultidirectionalBroadcast(ga, gb)
-				} else {
-					oa, ob, err = ops.UnidirectionalBroadcast(ga, gb)
-				}
+				oa, ob, err = callBcast(c.Fn, ga, gb)
 			}()
 			if v != nil {
 				return v
@@ -155,6 +149,9 @@ func checkC14(c *hx.Checker) {
 				for _, fn := range []string{"multi", "uni"} {
 					jobs = append(jobs, job{fn, dt, a, b})
 				}
+				if dt == ref.I64 && len(a) <= 3 && len(b) <= 3 {
+					jobs = append(jobs, job{"apply-multi", dt, a, b}, job{"apply-uni", dt, a, b})
+				}
 			}
 		}
 	}
@@ -192,5 +189,73 @@ func checkC14(c *hx.Checker) {
 		c.Case(hx.CaseInfo{ID: id, Tags: tags, NonTrivial: !ref.ShapeEq(j.a, j.b),
 			Sample: map[string]any{"fn": j.fn, "dtype": j.dt.String(), "shapeA": j.a, "shapeB": j.b}},
 			func() *hx.Violation { return runBcast(bc) })
+		if len(j.a) <= 3 && len(j.b) <= 3 && ref.NElem(j.a) <= 64 && ref.NElem(j.b) <= 64 && (j.dt == ref.I64 || j.dt == ref.F32) {
+			c.Case(hx.CaseInfo{ID: "frozen-sources/" + id, Tags: append(append([]string{}, tags...), "frozen-sources"), NonTrivial: !ref.ShapeEq(j.a, j.b)},
+				func() *hx.Violation {
+					if v := runBcastFrozen(bc); v != nil {
+						return v
+					}
+					return hx.OK("sources-not-written")
+				})
+		}
 	})
+}
+
+// runBcastFrozen: the same request with both source tensors (header, shape, strides, data) relocated into a
+// write-protected arena: a helper that changes a source even for the duration of the call (reshape in place and restore)
+// faults - which decides "the sources are not written" for every interleaving of concurrent callers sharing an operand.
+func runBcastFrozen(c *bcastCase) (v *hx.Violation) {
+	mk := func(kind, detail string) *hx.Violation { return &hx.Violation{Kind: kind, Detail: detail, Replay: c} }
+	a, b := c.A.T(), c.B.T()
+	da, okA := hx.ToG(a).(*tensor.Dense)
+	db, okB := hx.ToG(b).(*tensor.Dense)
+	if !okA || !okB {
+		return nil
+	}
+	arena, err := hx.NewArena(1 << 16)
+	if err != nil {
+		hx.HarnessError("mmap failed: %v", err)
+	}
+	defer arena.Close()
+	fa, fb := arena.FreezeDense(da), arena.FreezeDense(db)
+	if err := arena.Freeze(); err != nil {
+		hx.HarnessError("mprotect failed: %v", err)
+	}
+	runtime.LockOSThread()
+	defer runtime.UnlockOSThread()
+	old := debug.SetPanicOnFault(true)
+	defer debug.SetPanicOnFault(old)
+	defer func() {
+		if p := recover(); p != nil {
+			msg := fmt.Sprint(p)
+			kind := "panic"
+			if strings.Contains(msg, "fault address") || strings.Contains(msg, "invalid memory address") {
+				kind = "shared-write"
+				msg = "the helper wrote into a source tensor (header / shape / strides / data) during the call: " + msg
+			}
+			v = mk(kind, msg+" :: "+firstLines(string(debug.Stack()), 30))
+		}
+	}()
+	callBcast(c.Fn, fa, fb)
+	return nil
+}
+
+// callBcast: the two helpers directly, or through ops.ApplyBinaryOperation with the corresponding broadcast option
+// (the operands its callback receives are the broadcast ones).
+func callBcast(fn string, ga, gb tensor.Tensor) (oa, ob tensor.Tensor, err error) {
+	switch fn {
+	case "multi":
+		return ops.MultidirectionalBroadcast(ga, gb)
+	case "uni":
+		return ops.UnidirectionalBroadcast(ga, gb)
+	}
+	opt := ops.MultidirectionalBroadcasting
+	if fn == "apply-uni" {
+		opt = ops.UnidirectionalBroadcasting
+	}
+	_, err = ops.ApplyBinaryOperation(ga, gb, func(x, y tensor.Tensor) (tensor.Tensor, error) {
+		oa, ob = x, y
+		return x, nil
+	}, opt)
+	return oa, ob, err
 }
